@@ -55,12 +55,14 @@ type presTable struct {
 	Types     []pair   `json:"types"`
 	Classes   []pair   `json:"classes"`
 	Svckeys   []pair   `json:"svckeys"`
+	Certtypes []pair   `json:"certtypes"`
 
-	byType  map[int][]presItem
-	nopres  map[int]bool
-	rest    map[string]bool
-	types   map[string]int
-	svckeys map[string]int
+	byType    map[int][]presItem
+	nopres    map[int]bool
+	rest      map[string]bool
+	types     map[string]int
+	svckeys   map[string]int
+	certtypes map[int]bool
 }
 
 var (
@@ -90,6 +92,10 @@ func loadPres(path string) *presTable {
 	for _, e := range p.Svckeys {
 		p.svckeys[e.M.String()] = e.C
 	}
+	p.certtypes = map[int]bool{}
+	for _, e := range p.Certtypes {
+		p.certtypes[e.C] = true
+	}
 	return p
 }
 
@@ -99,7 +105,6 @@ func main() {
 	}
 	L = wire.LoadLayout(os.Args[2])
 	P = loadPres(os.Args[3])
-	wire.RegisterPrivate()
 	switch os.Args[1] {
 	case "replay":
 		replay(os.Args[4], os.Args[5])
@@ -126,18 +131,25 @@ type src struct {
 }
 
 type event struct {
-	Key   string    `json:"key"`   // TYPE[:class]
-	Text  hx.B      `json:"text"`  // the real String() (generic origin: the harness' RFC 3597 rendering)
-	Wire  hx.B      `json:"wire"`  // the real PackRR of the record (generic origin: the spec's octets)
-	Hk    []hkEntry `json:"hk"`
-	Src   src       `json:"src"`
-	Alpha bool      `json:"alpha"` // informational; the trace spec decides on its own
+	Key      string       `json:"key"`  // TYPE[:class]
+	Text     hx.B         `json:"text"` // the real String() (generic origin: the harness' RFC 3597 rendering)
+	Wire     hx.B         `json:"wire"` // the real PackRR of the record (generic origin: the spec's octets)
+	Hk       []hkEntry    `json:"hk"`
+	Src      src          `json:"src"`
+	Alpha    bool         `json:"alpha"`              // informational; the trace spec decides on its own
+	Neg      bool         `json:"neg,omitempty"`      // negative probe: a generic rendering with a wrong stated length ...
+	Accepted bool         `json:"accepted"` // ... and whether NewRR accepted it
+	Gomis    *hx.Mismatch `json:"gomis,omitempty"`    // record mode: what the Go-side round trip saw; the driver reports it unless
+	// the specification places the record outside the alphabet of its type (the harness does not know the alphabets)
 }
 
 const maxEventText = 4000 // longer texts are round-tripped but not lexed by TLC (quadratic)
 
 type run struct {
 	sum   hx.Summary
+	ride  bool // mismatches ride on the events instead of going to the summary
+	last  *hx.Mismatch
+	dup   map[[20]byte]bool
 	w     *hx.Writer
 	seen  map[[20]byte]bool
 	ambig map[string]int
@@ -145,7 +157,7 @@ type run struct {
 }
 
 func newRun(out string) *run {
-	r := &run{seen: map[[20]byte]bool{}, ambig: map[string]int{}, stat: map[string]int{}}
+	r := &run{seen: map[[20]byte]bool{}, dup: map[[20]byte]bool{}, ambig: map[string]int{}, stat: map[string]int{}}
 	if out != "" {
 		r.w = hx.NewWriter(out)
 	}
@@ -166,6 +178,10 @@ func (r *run) finish() {
 func (r *run) mis(alpha bool, key, what string, c interface{}) {
 	if !alpha { // outside the alphabet the RFC of the type defines: AMBIG, counted, not reported
 		r.ambig[key]++
+		return
+	}
+	if r.ride {
+		r.last = &hx.Mismatch{Key: key, What: what}
 		return
 	}
 	r.sum.Mis(key, what, c)
@@ -230,7 +246,8 @@ func (r *run) roundTrip(rr dns.RR, key string, alpha bool, s src, c interface{})
 	} else if !bytes.Equal(ow, w2) {
 		r.mis(alpha, "present/reparse-"+diffPart(ow, w2)+":"+key, fmt.Sprintf("text %.300q: original packs to %.200x, re-parsed to %.200x", text, ow, w2), c)
 	}
-	r.emit(event{Key: key, Text: hx.FromString(text), Wire: hx.FromBytes(ow), Hk: decodeHk(text), Src: s, Alpha: alpha})
+	r.emit(event{Key: key, Text: hx.FromString(text), Wire: hx.FromBytes(ow), Hk: decodeHk(text), Src: s, Alpha: alpha, Gomis: r.last})
+	r.last = nil
 }
 
 func (r *run) emit(e event) {
@@ -239,8 +256,18 @@ func (r *run) emit(e event) {
 	}
 	if len(e.Text) > maxEventText {
 		r.stat["text-too-long-for-tlc"]++
+		if e.Gomis != nil { // nobody else will report it
+			r.sum.Mis(e.Gomis.Key, e.Gomis.What, e.Src)
+		}
 		return
 	}
+	// the same text for the same octets (both origins usually agree) is judged once
+	h := sha1.Sum(append(append(e.Text.Bytes(), 0xff, 0x00, 0xff), e.Wire.Bytes()...))
+	if r.dup[h] && e.Gomis == nil {
+		r.stat["events-deduplicated"]++
+		return
+	}
+	r.dup[h] = true
 	r.w.Emit(e)
 }
 
@@ -294,7 +321,23 @@ func (r *run) generic(a *wire.RR, seg []byte, key string, c interface{}) {
 			r.sum.Mis("present/generic-"+diffPart(want, w)+":"+key, fmt.Sprintf("text %.300q packs to %.200x, the same octets unpacked pack to %.200x", text, w, want), c)
 		}
 	}
-	// the specification reads the harness' rendering: must denote the spec's octets (a failure is a harness / spec bug)
+	// negative probes (a tenth of the records): the stated length one too large / one too small must be refused
+	if h := sha1.Sum([]byte(text)); h[1]%10 == 0 && len(rd) > 0 {
+		for _, n := range []int{len(rd) + 1, len(rd) - 1} {
+			bad := strings.Replace(text, fmt.Sprintf("\\# %d", len(rd)), fmt.Sprintf("\\# %d", n), 1)
+			var rr2 dns.RR
+			var err2 error
+			hx.Catch(func() { rr2, err2 = dns.NewRR(bad) })
+			r.sum.Evaluations++
+			r.emit(event{Key: key, Text: hx.FromString(bad), Wire: hx.FromBytes(seg), Hk: []hkEntry{}, Neg: true, Accepted: err2 == nil && rr2 != nil,
+				Src: src{Origin: "generic-neg", Text: hx.FromString(bad)}, Alpha: true})
+		}
+	}
+	// the specification reads the harness' rendering: must denote the spec's octets (a failure is a harness / spec bug).
+	// Quick tier: a deterministic fifth of them.
+	if !hx.Thorough() && sha1.Sum([]byte(text))[0]%5 != 0 {
+		return
+	}
 	r.emit(event{Key: key, Text: hx.FromString(text), Wire: hx.FromBytes(seg), Hk: []hkEntry{}, Src: src{Origin: "generic", Text: hx.FromString(text)}, Alpha: true})
 }
 
@@ -332,6 +375,9 @@ func replay(path, out string) {
 			if a.Nodata || a.Type == int(dns.TypeOPT) {
 				continue
 			}
+			if skipC01(a, r) {
+				continue
+			}
 			seg := exp[v.Rroff[k]:v.Rroff[k+1]]
 			key := L.Mnemonic(a.Type)
 			if c := classify(a); c != "" {
@@ -366,6 +412,17 @@ func replay(path, out string) {
 	})
 	registry(&r.sum)
 	r.finish()
+}
+
+// skipC01: records on which PackRR / UnpackRR are known not to be the wire format (C01 known finding
+// wire/..:AMTRELAY:dbit: the relay of an AMTRELAY record with the discovery bit is dropped).  C05 trusts the packer
+// through C01; where C01 says it cannot be trusted there is no record to speak of.  Counted, not exercised.
+func skipC01(a *wire.RR, r *run) bool {
+	if L.ClassOf(a) == "dbit" {
+		r.stat["skipped:AMTRELAY:dbit (C01 known finding)"]++
+		return true
+	}
+	return false
 }
 
 // registry compares the library's mnemonic registry with the specification's table (reported, never an oracle).
@@ -437,86 +494,89 @@ func anySeq(v interface{}) []interface{} {
 	return s
 }
 
-// classify names the first field of the record whose value needs care in text.
+// classify names the field of the record whose value needs most care in text (finding keys): unprintable type codes
+// first, then lengths the text leaves implicit, then strings by the characters they hold, in layout order.
 func classify(a *wire.RR) string {
+	best, bestPrio := "", 99
+	put := func(prio int, field, c string) {
+		if c != "" && prio < bestPrio {
+			best, bestPrio = field+"-"+c, prio
+			if field == "" {
+				best = c
+			}
+		}
+	}
+	v4mapped := func(b []byte) bool {
+		return len(b) == 16 && bytes.Equal(b[:12], []byte{0, 0, 0, 0, 0, 0, 0, 0, 0, 0, 0xff, 0xff})
+	}
+	labelClass := func(ls []interface{}) string {
+		for _, l := range ls {
+			if _, isNum := l.(float64); isNum { // an address, not a name
+				return ""
+			}
+			b := anyBytes(l)
+			if c := strClass(b); c != "" && c != "long" {
+				return c
+			}
+			if bytes.ContainsAny(b, ".@'$") {
+				return "special"
+			}
+		}
+		return ""
+	}
 	for _, e := range L.FieldsOf(a.Type) {
 		v := a.F[e.N]
-		c := ""
 		switch e.K {
 		case "u16":
+			if a.Type == 37 && e.N == "Type" && P.certtypes[int(v.(float64))] {
+				put(6, e.N, strconv.Itoa(int(v.(float64))))
+			}
 			if e.N == "TypeCovered" {
 				switch int(v.(float64)) {
 				case 0:
-					c = "type0"
+					put(1, e.N, "type0")
 				case 65535:
-					c = "type65535"
-				}
-			}
-		case "octet":
-			if c = strClass(anyBytes(v)); len(anyBytes(v)) > 255 {
-				c = "longer-than-255"
-			}
-		case "hex", "b32", "b64":
-			if n := len(anyBytes(v)); e.Sz != "" {
-				switch {
-				case a.Type == 50 && e.N == "NextDomain" && n != 20:
-					c = "length-not-20"
-				case a.Type == 55 && e.N == "Hit" && n > 127:
-					c = "longer-than-127"
-				}
-			}
-		case "str":
-			c = strClass(anyBytes(v))
-		case "strs", "ostr":
-			for _, s := range anySeq(v) {
-				if c = strClass(anyBytes(s)); c != "" {
-					break
-				}
-			}
-			if e.K == "strs" && c == "" && len(anySeq(v)) > 1 {
-				c = ""
-			}
-		case "name", "cname", "gateway":
-			for _, l := range anySeq(v) {
-				if _, isNum := l.(float64); isNum { // gateway address, not a name
-					break
-				}
-				if c = strClass(anyBytes(l)); c != "" && c != "long" {
-					break
-				}
-				if bytes.ContainsAny(anyBytes(l), ".@'$") {
-					c = "special"
-					break
-				}
-				c = ""
-			}
-		case "names":
-			for _, n := range anySeq(v) {
-				for _, l := range anySeq(n) {
-					if c = strClass(anyBytes(l)); c != "" && c != "long" {
-						break
-					}
-					c = ""
-				}
-				if c != "" {
-					break
+					put(1, e.N, "type65535")
 				}
 			}
 		case "bitmap", "bitmap0":
 			for _, t := range anySeq(v) {
 				switch int(t.(float64)) {
 				case 0:
-					c = "type0"
+					put(1, e.N, "type0")
 				case 65535:
-					if c == "" {
-						c = "type65535"
-					}
+					put(2, e.N, "type65535")
 				}
 			}
+		case "octet":
+			if len(anyBytes(v)) > 255 {
+				put(3, e.N, "longer-than-255")
+			}
+			put(10, e.N, strClass(anyBytes(v)))
+		case "hex", "b32", "b64":
+			if n := len(anyBytes(v)); e.Sz != "" {
+				if (a.Type == 55 && e.N == "Hit" || a.Type == 50 && e.N == "Salt") && n > 127 {
+					put(3, e.N, "longer-than-127")
+				}
+				if a.Type == 50 && e.N == "NextDomain" && n != 20 {
+					put(4, e.N, "length-not-20")
+				}
+			}
+		case "str":
+			put(10, e.N, strClass(anyBytes(v)))
+		case "strs", "ostr":
+			for _, s := range anySeq(v) {
+				put(10, e.N, strClass(anyBytes(s)))
+			}
+		case "name", "cname", "gateway":
+			put(10, e.N, labelClass(anySeq(v)))
+		case "names":
+			for _, n := range anySeq(v) {
+				put(10, e.N, labelClass(anySeq(n)))
+			}
 		case "aaaa":
-			b := anyBytes(v)
-			if len(b) == 16 && bytes.Equal(b[:12], []byte{0, 0, 0, 0, 0, 0, 0, 0, 0, 0, 0xff, 0xff}) {
-				c = "v4mapped"
+			if v4mapped(anyBytes(v)) {
+				put(5, e.N, "v4mapped")
 			}
 		case "svcb":
 			for _, p := range anySeq(v) {
@@ -528,38 +588,29 @@ func classify(a *wire.RR) string {
 					case 1:
 						for _, id := range anySeq(fv) {
 							if x := strClass(anyBytes(id)); x != "" {
-								c = "alpn-" + x
+								put(10, "", "alpn-"+x)
 							} else if bytes.ContainsAny(anyBytes(id), ",") {
-								c = "alpn-comma"
+								put(10, "", "alpn-comma")
 							}
 						}
 					case 6:
 						for _, ip := range anySeq(fv) {
-							b := anyBytes(ip)
-							if len(b) == 16 && bytes.Equal(b[:12], []byte{0, 0, 0, 0, 0, 0, 0, 0, 0, 0, 0xff, 0xff}) {
-								c = "ipv6hint-v4mapped"
+							if v4mapped(anyBytes(ip)) {
+								put(5, "", "ipv6hint-v4mapped")
 							}
 						}
 					case 0, 2, 3, 4, 5, 8:
 					default:
-						if x := strClass(anyBytes(fv)); x != "" {
-							c = fmt.Sprintf("key%d-%s", k, x)
-						}
+						put(10, "", fmt.Sprintf("key%d-", k)+strClass(anyBytes(fv)))
 					}
 				}
-				if c != "" {
-					break
-				}
 			}
-		}
-		if c != "" {
-			if strings.Contains(c, "-") && e.K == "svcb" {
-				return c
-			}
-			return e.N + "-" + c
 		}
 	}
-	return ""
+	if strings.HasSuffix(best, "-") { // keyNNN with a plain value
+		return ""
+	}
+	return best
 }
 
 // ---------------------------------------------------------------- codes
@@ -601,7 +652,11 @@ func codes(path string) {
 		} else if lib != v.Num.String() {
 			name = lib
 		}
+		failed := map[string]bool{}
 		for _, f := range forms {
+			if failed[strings.TrimSuffix(f.cls, "-lowercase")] {
+				continue
+			}
 			cl, ty := v.Ctext.String(), v.Ttext.String()
 			if v.K == "type" {
 				ty = f.tok
@@ -614,15 +669,19 @@ func codes(path string) {
 			}
 			key := fmt.Sprintf("%s-%s:%s", v.K, f.cls, name)
 			c := map[string]interface{}{"vec": v, "text": text}
+			mis := func(k, what string) {
+				failed[f.cls] = true
+				r.sum.Mis(k, what, c)
+			}
 			r.sum.Evaluations++
 			var rr dns.RR
 			var err error
 			if p := hx.Catch(func() { rr, err = dns.NewRR(text) }); p != "" {
-				r.sum.Mis("present/code-panic:"+key, "NewRR panics: "+p, c)
+				mis("present/code-panic:"+key, "NewRR panics: "+p)
 				continue
 			}
 			if err != nil || rr == nil {
-				r.sum.Mis("present/code-error:"+key, fmt.Sprintf("NewRR(%q): %v", text, err), c)
+				mis("present/code-error:"+key, fmt.Sprintf("NewRR(%q): %v", text, err))
 				continue
 			}
 			got := int(rr.Header().Rrtype)
@@ -630,14 +689,14 @@ func codes(path string) {
 				got = int(rr.Header().Class)
 			}
 			if got != v.Code {
-				r.sum.Mis("present/code-value:"+key, fmt.Sprintf("NewRR(%q) has %s %d", text, v.K, got), c)
+				mis("present/code-value:"+key, fmt.Sprintf("NewRR(%q) has %s %d", text, v.K, got))
 				continue
 			}
 			w, err := packRR(rr)
 			if err != nil {
-				r.sum.Mis("present/code-pack-error:"+key, fmt.Sprintf("NewRR(%q) gives a record that does not pack: %v", text, err), c)
+				mis("present/code-pack-error:"+key, fmt.Sprintf("NewRR(%q) gives a record that does not pack: %v", text, err))
 			} else if !bytes.Equal(w, v.Wire.Bytes()) {
-				r.sum.Mis("present/code-"+diffPart(v.Wire.Bytes(), w)+":"+key, fmt.Sprintf("NewRR(%q) packs to %.200x, spec %.200x", text, w, v.Wire.Bytes()), c)
+				mis("present/code-"+diffPart(v.Wire.Bytes(), w)+":"+key, fmt.Sprintf("NewRR(%q) packs to %.200x, spec %.200x", text, w, v.Wire.Bytes()))
 			}
 			r.seen[sha1.Sum([]byte(text))] = true
 		}
@@ -652,9 +711,15 @@ func codes(path string) {
 
 func record(out string, n int) {
 	r := newRun(out)
+	r.ride = true
 	rnd := hx.Rand()
 	// the zoo, under every owner
-	for _, owner := range zoo.Owners {
+	owners := zoo.Owners
+	if !hx.Thorough() { // three of the eleven, rotating with the seed
+		k := int(hx.Seed()) % len(owners)
+		owners = []string{owners[k], owners[(k+4)%len(owners)], owners[(k+7)%len(owners)]}
+	}
+	for _, owner := range owners {
 		for _, t := range zoo.Texts {
 			text := strings.Replace(t, "OWNER", owner, 1)
 			rr, err := dns.NewRR(text)
@@ -670,6 +735,9 @@ func record(out string, n int) {
 	g := &gen{r: rnd}
 	for i := 0; i < n; i++ {
 		a := wire.Normalize(g.record())
+		if skipC01(a, r) {
+			continue
+		}
 		key := L.Mnemonic(a.Type)
 		if c := classify(a); c != "" {
 			key += ":" + c
@@ -717,6 +785,12 @@ func reexec(in, out string) {
 			}
 			r.roundTrip(rr, e.Key, e.Alpha, e.Src, e)
 		case "generic":
+			r.emit(*e)
+		case "generic-neg":
+			var rr2 dns.RR
+			var err2 error
+			hx.Catch(func() { rr2, err2 = dns.NewRR(e.Src.Text.String()) })
+			e.Accepted = err2 == nil && rr2 != nil
 			r.emit(*e)
 		default:
 			hx.Die("reexec: unknown origin %q", e.Src.Origin)
